@@ -191,7 +191,7 @@ HDR = "(* GENERATED by tools/kern_masked_c32.py from /repo's current source (%s:
 PRE = ["From Coq Require Import List NArith.", "From AsconV Require Import Sym.Wexpr Sym.VKernel.", "Import ListNotations.", "Local Open Scope nat_scope.", ""]
 
 
-def emit(name, ifaces, segtab, chains, gen, entry_if, exit_if, nparts):
+def emit(name, ifaces, segtab, chains, gen, entry_if, exit_if, nparts, std=None):
     """Gen/Masked_<name>_if.v (interfaces), Gen/Masked_<name>_p<i>.v (segments, contiguous chunks),
     Gen/MaskedObl_<name>_p<i>.v (per-chunk reflective check), Gen/Masked_<name>.v (concatenation, entry/exit, chains),
     Gen/MaskedObl_<name>.v (vbackend_ok from the parts, Obl/KernMaskedParts.vbackend_ok_parts)"""
@@ -234,7 +234,10 @@ def emit(name, ifaces, segtab, chains, gen, entry_if, exit_if, nparts):
         % (name, name, " ".join("Gen.MaskedObl_%s_p%d" % (name, pi) for pi in range(nparts)),
            name, name, name, name, name,
            name, name, name, name, name, name,
-           name, name, name, name, name, conj, name))
+           name, name, name, name, name, conj, name) +
+        # std = (shares, MAX_SHARES): the entry / exit value programs are the hand-written Obl/MWordSpec.state_val (syntactic check)
+        ("Lemma %s_std_ok : vstd_ok MWordSpec.B32 %d %d %s_ifaces %s_entry %s_exit = true. Proof. vm_compute. reflexivity. Qed.\n"
+         % (name, std[0], std[1], name, name, name) if std else ""))
     # stale part files of an earlier run with more parts
     pi = nparts
     while os.path.exists(os.path.join(gen, "Masked_%s_p%d.v" % (name, pi))):
@@ -256,7 +259,7 @@ def main(repo, gen):
             ifaces, segtab, chains, errors, ein, eout = run_kernel(name, n, llvm_provider(repo, n))
         except Stuck as ex:
             ifaces, segtab, chains, errors, ein, eout = [], {}, {}, [str(ex)], 0, 0
-        emit(name, ifaces, segtab, chains, gen, ein, eout, PARTS[n])
+        emit(name, ifaces, segtab, chains, gen, ein, eout, PARTS[n], std=(n, MAXS))
         for e in errors:
             print("MISSING kern_masked_c32 %s: %s" % (name, e))
         print("kern_masked_c32 %s: %d interfaces, %d segments in %d files, %d chains (%.1f s)" % (name, len(ifaces), len(segtab), PARTS[n], len(chains), time.time() - t0))
